@@ -33,6 +33,11 @@ func checkC08(p *Prog, r *Report) {
 	idRule(p, r, "R7", subMgr)
 	r.Rule("R13", "the id counter only grows: every modification is sync/atomic Add with a positive constant — an id handed back, reset or recomputed is handed out twice")
 	monotoneCounterRule(p, ls, r, "R13", F("SubscriptionManager.subscriptionNum"))
+	if eri := p.LookupIface("api", "EntityRemoteInterface"); eri != nil {
+		// RemoveSubscription matches entries by the client's device address: a remote entity that never gets the
+		// learned device address (the one known before discovery) owns subscriptions no delete call can address
+		reannounceRules(p, r, eri, "", "R14")
+	}
 	r.Rule("R8", "the per-device listing filters on the peer identity (SKI of the client feature's device), the per-feature listing on the server feature address")
 	listingRule(p, r, "R8", subMgr)
 	r.Rule("R12", "the subscription list is never used as the backing array of another list (a query that filters into registry[:0] overwrites the registry)")
